@@ -23,7 +23,7 @@ import (
 
 const c12LabelChars = "abcdefghijklmnopqrstuvwxyzABCDEFGHIJKLMNOPQRSTUVWXYZ0123456789!#$%*+-.^_|~{}"
 
-var c12RealLabels = []string{"utf-8", "UTF-8", "Utf-8", "iso-8859-1", "ISO-8859-15", "windows-1252", "Windows-1251", "koi8-r", "KOI8-U", "shift_jis", "Shift_JIS", "euc-jp", "EUC-KR", "gb2312", "GBK", "gb18030", "big5", "Big5-HKSCS",
+var c12RealLabels = []string{"x-user-defined", "X-User-Defined", "replacement", "unicode-1-1-utf-8", "x-mac-roman", "macintosh", "ibm866", "iso-2022-jp", "hz-gb-2312", "utf-7", "x-cp1252", "ascii", "latin1", "l1", "ANSI_X3.4-1968", "csisolatin1", "utf8", "unicode", "ucs-2", "utf-8", "UTF-8", "Utf-8", "iso-8859-1", "ISO-8859-15", "windows-1252", "Windows-1251", "koi8-r", "KOI8-U", "shift_jis", "Shift_JIS", "euc-jp", "EUC-KR", "gb2312", "GBK", "gb18030", "big5", "Big5-HKSCS",
 	"us-ascii", "latin1", "l1", "macintosh", "ibm866", "tis-620", "utf-16", "UTF-16LE", "utf-16be", "UTF-16", "utf-7", "utf-32", "x-mac-cyrillic", "iso-2022-jp", "windows-874", "cp1252", "unicode-1-1-utf-8"}
 
 func c12Label(r *rand.Rand, xml bool) string {
@@ -140,6 +140,9 @@ func c12HTML(r *rand.Rand, long bool) c12Doc {
 		if r.Intn(6) == 0 {
 			rep = 15 // one token of more than 64 KiB
 		}
+		if hugeTokens && r.Intn(3) == 0 {
+			rep = 300 // one token of more than 1 MiB
+		}
 		if r.Intn(2) == 0 {
 			sb.WriteString("<!-- " + strings.Repeat("long comment ", 400*rep) + "-->")
 		} else {
@@ -248,6 +251,9 @@ func c12XML(r *rand.Rand) c12Doc {
 	return d
 }
 
+// hugeTokens lets the long-token generator produce tokens of more than 1 MiB (one batch only).
+var hugeTokens bool
+
 func c12Judge(c *fw.Ctx, d c12Doc, L uint32) {
 	entry := pickEntry(c)
 	key := fw.InputKey(d.data, L, entry)
@@ -345,6 +351,21 @@ func c12Run(c *fw.Ctx, b fw.Batch) {
 				c12Judge(c, d, L)
 			}
 		}
+		if b.Idx == 0 {
+			// a single token of more than 1 MiB in front of the declaration (limit 0 and beyond the end)
+			hugeTokens = true
+			for i := 0; i < 12; i++ {
+				d := c12HTML(r, true)
+				if len(d.data) < 1<<20 {
+					continue
+				}
+				for _, L := range []uint32{0, uint32(len(d.data) + 1), uint32(d.declEnd)} {
+					c12Judge(c, d, L)
+				}
+				c.Count("documents_with_a_token_of_more_than_1_MiB", 1)
+			}
+			hugeTokens = false
+		}
 	case "xml":
 		for i := 0; i < b.N; i++ {
 			d := c12XML(r)
@@ -419,7 +440,7 @@ func init() {
 	fw.Register(&fw.Prop{
 		ID:    "C12",
 		Level: "exploration",
-		Rule: "documents = HTML starting with one of 13 openings (doctype/html/head/title/script/style/…; optional UTF-8 BOM and leading whitespace), 0-3 decoys (comments, script/style/title/textarea containing fake metas, name=/refresh/og metas with charset= text), optionally one comment/script token of > 4 KiB or > 64 KiB, then ONE declaration in one of 9 syntaxes (charset unquoted / double / single quoted / among other attributes; http-equiv pragma with content before or after, spaces around 'charset =', quotes inside content, unquoted attribute values; random letter case of tag and attribute names; spaces around '='; '>' or '/>'), and XML 1.0 prologues ('<?xml ' + version + encoding with either quote, standalone, varied whitespace). Labels: every token character, 35 real IANA labels, random and very long labels, utf-16*. Limits: 0, len+1, exactly the end of the declaration, len, 3072, random in between. " +
+		Rule: "documents = HTML starting with one of 13 openings (doctype/html/head/title/script/style/…; optional UTF-8 BOM and leading whitespace), 0-3 decoys (comments, script/style/title/textarea containing fake metas, name=/refresh/og metas with charset= text), optionally one comment/script token of > 4 KiB, > 64 KiB or > 1 MiB, then ONE declaration in one of 9 syntaxes (charset unquoted / double / single quoted / among other attributes; http-equiv pragma with content before or after, spaces around 'charset =', quotes inside content, unquoted attribute values; random letter case of tag and attribute names; spaces around '='; '>' or '/>'), and XML 1.0 prologues ('<?xml ' + version + encoding with either quote, standalone, varied whitespace). Labels: every token character, 35 real IANA labels, random and very long labels, utf-16*. Limits: 0, len+1, exactly the end of the declaration, len, 3072, random in between. " +
 			"non-trivial = a result of the expected type whose declaration was judged; distinct = distinct (type, syntax, label class, whole/cut/cut-at-declaration-end, number of decoys).",
 		Assumptions: []string{
 			"labels never contain '&' (the HTML tokenizer decodes character references, which would make 'the declared label' ambiguous), quotes or backticks",
